@@ -115,7 +115,7 @@ Variables (discard_h first_only : bool).
 (* the event of one coordinate record in a reader state: the chain after the blank-chain rule, the residue number after the
    wrap offset, the atom with its wrapped serial number and fresh identity *)
 Definition atom_event (s : st) (hetero : bool) (b : atom_basics) (x y z occ bf : fval) : option event :=
-  if (discard_h && text_eqb (ab_element b) (stext "H"))%bool then None else
+  if (discard_h && is_hydrogen (ab_element b) (ab_name b))%bool then None else
   let atom_add := if (Z.eqb (ab_serial b) 0 && Z.eqb (s_last_atom s) 99999)%bool then (s_atom_add s + 100000)%Z else s_atom_add s in
   let res_add := if (Z.eqb (ab_resnum b) 0 && Z.eqb (s_last_res s) 9999)%bool then (s_res_add s + 10000)%Z else s_res_add s in
   let chain := if blank (ab_chain b) then letter_of (s_chain_letter s) else ab_chain b in
@@ -124,7 +124,7 @@ Definition atom_event (s : st) (hetero : bool) (b : atom_basics) (x y z occ bf :
       if (valid_text chain &&
           match Conformer_new (ab_resname b) (ab_alt b) [] with Some _ => true | None => false end &&
           match Residue_new 0 (ab_icode b) [] with Some _ => true | None => false end)%bool
-      then Some {| e_chain := chain; e_key := ((ab_resnum b + res_add)%Z, ab_icode b); e_name := ab_resname b; e_alt := ab_alt b; e_atom := atom |}
+      then Some {| e_chain := chain; e_key := ((ab_resnum b + res_add)%Z, option_map upper (ab_icode b)); e_name := ab_resname b; e_alt := ab_alt b; e_atom := atom |}
       else None
   | None => None
   end.
